@@ -139,5 +139,5 @@ def run_task(task):
                     exact_max=float(gamma2.max())))
 
   bfs(acc, s0, np.zeros(sh, np.float64), names, task["depth"], step, ref_step,
-      check, canon)
+      check, canon, task=task)
   return acc.result()
